@@ -5,7 +5,7 @@ CONSTANTS
  MaxEdits = 1
  MaxOvr = 1
  MaxCopies = 2
- MaxLevel = 4
+ MaxLevel = 3
  ShallowSlots = {}
  KeepParent = FALSE
 SPECIFICATION Spec
